@@ -94,10 +94,11 @@ type State struct {
 	HavRepo  bool     // a havoc of repo classes happened: untouched classes are no longer the entry heap
 	HavExt   bool     // same for non-repo classes
 	HavPrefix []string // class prefixes havocked by loops
+	Escaped   []string // repo classes whose objects were handed to code without contract
 }
 
 func (st *State) clone() *State {
-	n := &State{PC: st.PC, Frontier: st.Frontier, HavRepo: st.HavRepo, HavExt: st.HavExt, HavPrefix: append([]string{}, st.HavPrefix...)}
+	n := &State{PC: st.PC, Frontier: st.Frontier, HavRepo: st.HavRepo, HavExt: st.HavExt, HavPrefix: append([]string{}, st.HavPrefix...), Escaped: append([]string{}, st.Escaped...)}
 	n.Frames = make([]*Frame, len(st.Frames))
 	for i, f := range st.Frames {
 		nf := *f
